@@ -257,7 +257,7 @@ func c13rosterAccessors(ro *onet.Roster, members [][]int, keys []c13key) string 
 		if len(members[0]) > 1 {
 			kf = members[0][1]
 		}
-		if keys[k].ed != keys[kf].ed {
+		if keys[k].kind != keys[kf].kind {
 			mixed = true
 		}
 	}
@@ -328,6 +328,14 @@ func c13rebuildOracle(t *onet.Tree, ro *onet.Roster) (string, string) {
 	}
 	if again := onet.NewTree(ro, t2.Root); !again.ID.Equal(t.ID) {
 		return "tree-id-not-recomputable", "NewTree over the rebuilt nodes and the same roster gives " + again.ID.String() + ", the tree carries " + t.ID.String()
+	}
+	for _, n := range t2.List() {
+		if f := t2.Search(n.ID); f == nil || !f.ID.Equal(n.ID) || n.String() != n.ID.String() || !n.IsInTree(t2) {
+			return "tree-id-changed-by-rebuild", "Tree.Search / TreeNode.String / IsInTree do not go by the node id"
+		}
+	}
+	if t2.Size() != len(t.List()) {
+		return "tree-id-changed-by-rebuild", "the rebuilt tree has another number of nodes"
 	}
 	if strings.Contains(t.String(), t.ID.String()) == false {
 		return "tree-id-changed-by-rebuild", "Tree.String does not show the tree's id"
